@@ -216,6 +216,8 @@ def run(case):
     for k, v in case.get('subs', {}).items():
         point[k] = sp.Rational(v)
     point['__eps__'] = sp.Rational(case.get('eps', '1/7'))
+    # resistive circuits are analysed in the time domain: evaluate at an instant t0 > 0 (u(t0) = 1)
+    point['t'] = sp.Rational(case.get('t0', '3/2'))
     if case.get('solver'):
         c.solver_method = case['solver']
     res = {'kinds': {}}
